@@ -89,6 +89,98 @@ theorem C18_failing_call_fails_handler (pre post : List PyCall) (x : PyCall) (c 
       simp only
       exact ih c2 hpre
 
+/-- the calls Python rejects: exactly `set_timer` / `set_timer_once` with a negative delay -/
+def PyCall.raises : PyCall → Bool
+  | .setTimer _ d => decide (d < 0)
+  | .setTimerOnce _ d => decide (d < 0)
+  | _ => false
+
+theorem call_none_iff (c : PyCtx) (x : PyCall) : c.call x = none ↔ x.raises = true := by
+  cases x with
+  | send m dst => simp [PyCtx.call, PyCall.raises]
+  | sendLocal m => simp [PyCtx.call, PyCall.raises]
+  | setTimer n d => by_cases hd : d < 0 <;> simp [PyCtx.call, PyCall.raises, hd]
+  | setTimerOnce n d => by_cases hd : d < 0 <;> simp [PyCtx.call, PyCall.raises, hd]
+  | cancelTimer n => simp [PyCtx.call, PyCall.raises]
+
+/-- a handler fails **iff** one of its calls is rejected: the bridge neither swallows an exception nor
+    invents one, whatever the calls before and after it -/
+theorem C18_handler_fails_iff (calls : List PyCall) : ∀ (c : PyCtx),
+    c.run calls = none ↔ ∃ x ∈ calls, x.raises = true := by
+  induction calls with
+  | nil => intro c; simp [PyCtx.run]
+  | cons y ys ih =>
+    intro c
+    cases hy : c.call y with
+    | none =>
+      have hr : y.raises = true := (call_none_iff c y).1 hy
+      simp only [PyCtx.run, hy, true_iff]
+      exact ⟨y, List.mem_cons_self, hr⟩
+    | some c2 =>
+      have hr : ¬ y.raises = true := fun h => by
+        have := (call_none_iff c y).2 h
+        rw [hy] at this
+        cases this
+      simp only [PyCtx.run, hy, ih c2, List.mem_cons, exists_eq_or_imp]
+      constructor
+      · intro h; exact Or.inr h
+      · intro h
+        cases h with
+        | inl h => exact absurd h hr
+        | inr h => exact h
+
+/-- a handler none of whose calls is rejected always completes, and what reaches the engine is the
+    canonical reordering of its calls (total form of `C18_relay_canonical`) -/
+theorem C18_accepted_handler_relays (calls : List PyCall) (hok : ∀ x ∈ calls, x.raises = false) :
+    ∃ c, ({} : PyCtx).run calls = some c ∧ relay c = canonOrder (calls.map PyCall.toAction) := by
+  cases h : ({} : PyCtx).run calls with
+  | none =>
+    obtain ⟨x, hx, hr⟩ := (C18_handler_fails_iff calls {}).1 h
+    rw [hok x hx] at hr
+    cases hr
+  | some c => exact ⟨c, rfl, C18_relay_canonical calls c h⟩
+
+theorem filter_filter_disj {α : Type} (p q : α → Bool) (h : ∀ a, q a = true → p a = false) (l : List α) :
+    (l.filter q).filter p = [] := by
+  rw [List.filter_eq_nil_iff]
+  intro a ha
+  have := (List.mem_filter.1 ha).2
+  simp [h a this]
+
+theorem filter_filter_same {α : Type} (p : α → Bool) (l : List α) : (l.filter p).filter p = l.filter p := by
+  simp [List.filter_filter]
+
+theorem filter_isSend_canon (as : List Action) : (canonOrder as).filter Action.isSend = as.filter Action.isSend := by
+  simp only [canonOrder, List.filter_append, filter_filter_same]
+  rw [filter_filter_disj Action.isSend Action.isLoc (by intro a; cases a <;> simp [Action.isSend, Action.isLoc]),
+    filter_filter_disj Action.isSend Action.isTimerOp (by intro a; cases a <;> simp [Action.isSend, Action.isTimerOp])]
+  simp
+
+theorem filter_isLoc_canon (as : List Action) : (canonOrder as).filter Action.isLoc = as.filter Action.isLoc := by
+  simp only [canonOrder, List.filter_append, filter_filter_same]
+  rw [filter_filter_disj Action.isLoc Action.isSend (by intro a; cases a <;> simp [Action.isSend, Action.isLoc]),
+    filter_filter_disj Action.isLoc Action.isTimerOp (by intro a; cases a <;> simp [Action.isLoc, Action.isTimerOp])]
+  simp
+
+theorem filter_isTimerOp_canon (as : List Action) : (canonOrder as).filter Action.isTimerOp = as.filter Action.isTimerOp := by
+  simp only [canonOrder, List.filter_append, filter_filter_same]
+  rw [filter_filter_disj Action.isTimerOp Action.isSend (by intro a; cases a <;> simp [Action.isSend, Action.isTimerOp]),
+    filter_filter_disj Action.isTimerOp Action.isLoc (by intro a; cases a <;> simp [Action.isLoc, Action.isTimerOp])]
+  simp
+
+/-- the canonical order is a fixed point of the relay: a Rust process that issues its calls in the
+    order the bridge uses (as the twin processes of the correspondence runs do) is relayed unchanged,
+    so relaying twice, or relaying a Rust twin's actions, changes nothing -/
+theorem C18_canon_idempotent (as : List Action) : canonOrder (canonOrder as) = canonOrder as := by
+  show (canonOrder as).filter Action.isSend ++ (canonOrder as).filter Action.isLoc ++
+      (canonOrder as).filter Action.isTimerOp = canonOrder as
+  rw [filter_isSend_canon, filter_isLoc_canon, filter_isTimerOp_canon]
+  rfl
+
+/-- non-vacuity of `C18_handler_fails_iff`: a rejected call in the middle fails the handler; without it the handler completes -/
+example : ({} : PyCtx).run [.send ⟨0, []⟩ 1, .setTimer 1 (-2), .sendLocal ⟨3, []⟩] = none ∧
+    (({} : PyCtx).run [.send ⟨0, []⟩ 1, .setTimer 1 2, .sendLocal ⟨3, []⟩]).isSome = true := by decide
+
 /-- non-vacuity: a handler mixing all kinds of calls -/
 example : relay ((({} : PyCtx).run [.setTimer 1 3, .send ⟨0, [1]⟩ 2, .cancelTimer 1, .sendLocal ⟨5, []⟩, .setTimerOnce 2 0]).getD {}) =
     [.send ⟨0, [1]⟩ 2, .loc ⟨5, []⟩, .set 1 3 false, .cancel 1, .set 2 0 true] := by decide
